@@ -243,6 +243,12 @@ EDGE = \
     , E1 + [['--nf-power', '0'], ['--near-field', '5,5,5,1,1,1,1,1,1']], E1 + [['--excitation-voltage', '0']], E1 + [['--excitation-voltage', '0'], ['--near-field', '5,5,5,1,1,1,1,1,1'], ['--nf-power', '10']]
     , E1 + [['--excitation-pulse', '2'], ['--excitation-pulse', '2']], E1 + [['--excitation-pulse', '2'], ['--excitation-pulse', '3'], ['--excitation-voltage', '1'], ['--excitation-voltage', '-1']]
     , E1 + [['--excitation-pulse', '2'], ['--excitation-voltage', '1'], ['--excitation-voltage', '2']]
+    # the auxiliary files together with every kind of field request (with and without the optional companions)
+    ] + [ E1 + o + x + y
+          for o in ([['--output-basic-input', '@TMP@/o.mini']], [['--output-cmdline', '@TMP@/o.pym']], [['--output-basic-input', '@TMP@/o.mini'], ['--mininec-version', '13']])
+          for x in ([['--option', 'far-field-absolute']], [['--option', 'far-field-absolute'], ['--option', 'far-field']], [['--option', 'near-field'], ['--near-field', '5,5,5,1,1,1,2,1,1']], [['--option', 'none']])
+          for y in ([], [['--ff-power', '100']], [['--ff-distance', '500']], [['--nf-power', '10']], [['--medium', '0,0,0']])
+    ] + [ E1 + [['--excitation-pulse', '2']]
     # output files that cannot be written: directory missing, path is a directory, no permission to create
     , E1 + [['--output-cmdline', '@TMP@/missing/o.pym']], E1 + [['--output-basic-input', '@TMP@/missing/o.mini']]
     , E1 + [['--output-cmdline', '@TMP@']], E1 + [['--output-basic-input', '@TMP@']]
@@ -353,14 +359,18 @@ def base (rng):
         groups.append (['--theta', '0,45,2'])
         groups.append (['--phi', '0,90,2'])
     if rng.random () < 0.3:
-        groups.append (['--near-field', '%g,%g,%g,%g,%g,%g,2,1,1' % (lam, lam, lam, lam * 0.1, lam * 0.1, lam * 0.1)])
+        zs, zi = lam, lam * 0.1
+        if rng.random () < 0.35:
+            # field points in and below the plane z = 0 (below ground when there is one)
+            zs, zi = float (rng.choice ([0.0, -lam, lam * 0.05])), float (rng.choice ([-lam * 0.1, lam * 0.1]))
+        groups.append (['--near-field', '%g,%g,%g,%g,%g,%g,2,1,%d' % (lam, lam, zs, lam * 0.1, lam * 0.1, zi, int (rng.integers (1, 3)))])
         if rng.random () < 0.5:
             groups.append (['--nf-power', '100'])
     if rng.random () < 0.3:
         groups.append (['--option', str (rng.choice (['far-field', 'near-field', 'far-field-absolute', 'none']))])
         if groups [-1][1] == 'near-field' and not any (g [0] == '--near-field' for g in groups):
             groups.append (['--near-field', '%g,%g,%g,1,1,1,1,1,1' % (lam, lam, lam)])
-        if groups [-1][1] == 'far-field-absolute' or rng.random () < 0.2:
+        if (groups [-1][1] == 'far-field-absolute' and rng.random () < 0.7) or rng.random () < 0.2:
             groups.append (['--ff-distance', '1000'])
             if rng.random () < 0.5:
                 groups.append (['--ff-power', '50'])
@@ -369,7 +379,7 @@ def base (rng):
         groups.append (['--frequency-increment', '%g' % (spec ['f'] * 0.02)])
     if rng.random () < 0.12:
         groups.append (['--output-cmdline', '@TMP@/o.pym'])
-    if rng.random () < 0.12:
+    if rng.random () < 0.2:
         groups.append (['--output-basic-input', '@TMP@/o.mini'])
         if rng.random () < 0.5:
             groups.append (['--mininec-version', str (rng.choice (['9', '12', '13']))])
